@@ -138,8 +138,11 @@ func genGrammar(r *rng, o gramOpts) *gSpec {
 	}
 	nr := 1 + r.intn(o.maxRules)
 	var names []string
+	// rule names in both cases: lox sorts symbols by name in several places, and
+	// upper-case rule names sort among / before the token names
+	prefix := pick(r, []string{"r", "r", "R", "Zq", "A"})
 	for i := 0; i < nr; i++ {
-		names = append(names, fmt.Sprintf("r%d", i))
+		names = append(names, fmt.Sprintf("%s%d", prefix, i))
 	}
 	llStyle := r.chance(3, 4)
 	for i := 0; i < nr; i++ {
@@ -160,6 +163,12 @@ func genGrammar(r *rng, o gramOpts) *gSpec {
 			case shape == 1 && j == 0:
 				// right recursion: r = T r | ...
 				p.terms = []gTerm{{kind: 0, name: pick(r, g.tokens)}, {kind: 1, name: names[i]}}
+			case shape == 2 && j == 0 && nt >= 3:
+				// bracketed, nested list: r = T0 @list(r, T1) T2 | ...
+				e := gTerm{kind: 1, name: names[i]}
+				sp := gTerm{kind: 0, name: g.tokens[1]}
+				p.terms = []gTerm{{kind: 0, name: g.tokens[0]}, {kind: 3, elem: &e, sep: &sp}, {kind: 0, name: g.tokens[2]}}
+				used[g.tokens[0]] = true
 			default:
 				n := r.intn(5)
 				if n == 0 && hasEmpty {
